@@ -367,6 +367,70 @@ Section Sched.
         assert (Nat.eqb i i' = false) as E by (apply Nat.eqb_neq; congruence).
         rewrite E. cbn [map]. now rewrite app_nil_r.
   Qed.
+  (** ** Blocking: what the lock excludes *)
+
+  (** While a writer is inside its critical section no other thread is inside
+      a call; while a reader is, no writer is. *)
+  Theorem lock_exclusion prog s0 cfg :
+    (forall j c, In c (prog j) -> call_mode c <> MU) ->
+    reachable (init prog s0) cfg ->
+    forall i,
+      (holds MW (ths cfg i) -> forall j, j <> i -> ~ holds MW (ths cfg j) /\ ~ holds MR (ths cfg j)) /\
+      (holds MR (ths cfg i) -> forall j, ~ holds MW (ths cfg j)).
+  Proof.
+    intros H Hr i. destruct (inv_reachable prog s0 cfg H Hr) as [_ _ _ Hw Hrd].
+    destruct (ths cfg i) as [todo|c rest loc todo] eqn:E; cbn [holds]; split; try tauto.
+    - intros Hm. exact (proj2 (Hw i c rest loc todo E Hm)).
+    - intros Hm. exact (proj2 (proj2 (Hrd i c rest loc todo E Hm))).
+  Qed.
+
+  (** Hence while a writer is inside its critical section every step of the
+      system is a step of that writer: all other threads stay where they are
+      (their Lock / RLock is not enabled - they block). *)
+  Theorem writer_runs_alone prog s0 cfg cfg' i :
+    (forall j c, In c (prog j) -> call_mode c <> MU) ->
+    reachable (init prog s0) cfg ->
+    holds MW (ths cfg i) -> step cfg cfg' ->
+    forall j, j <> i -> ths cfg' j = ths cfg j.
+  Proof.
+    intros H Hr Hi Hs j Hj.
+    pose proof (inv_reachable prog s0 cfg H Hr) as [Hl _ _ _ _].
+    destruct (lock_exclusion prog s0 cfg H Hr i) as [Hex _]. specialize (Hex Hi).
+    destruct Hs as [i' c todo cfg Hi' Hm Hg | i' c todo cfg Hi' Hm Hg | i' c todo cfg Hi' Hm
+                   | i' c f rest loc todo cfg Hi' | i' c loc todo cfg Hi']; cbn [ths].
+    - exfalso. apply (proj1 (Hg i)). exact Hi.
+    - exfalso. apply (Hg i). exact Hi.
+    - exfalso. apply (Hl i' c); [rewrite Hi'; now left|exact Hm].
+    - destruct (Nat.eq_dec i' i) as [->|Hne]; [now rewrite set_th_other|].
+      exfalso. assert (call_mode c <> MU) as Hnu by (apply (Hl i'); rewrite Hi'; now left).
+      destruct (Hex i' Hne) as [H1 H2]. rewrite Hi' in H1, H2. cbn [holds] in H1, H2.
+      destruct (call_mode c); congruence.
+    - destruct (Nat.eq_dec i' i) as [->|Hne]; [now rewrite set_th_other|].
+      exfalso. assert (call_mode c <> MU) as Hnu by (apply (Hl i'); rewrite Hi'; now left).
+      destruct (Hex i' Hne) as [H1 H2]. rewrite Hi' in H1, H2. cbn [holds] in H1, H2.
+      destruct (call_mode c); congruence.
+  Qed.
+
+  (** While a reader is inside, no writer can start. *)
+  Theorem reader_blocks_writers prog s0 cfg cfg' i :
+    (forall j c, In c (prog j) -> call_mode c <> MU) ->
+    reachable (init prog s0) cfg ->
+    holds MR (ths cfg i) -> step cfg cfg' ->
+    forall j, ~ holds MW (ths cfg' j).
+  Proof.
+    intros H Hr Hi Hs.
+    assert (reachable (init prog s0) cfg') as Hr' by (eapply ReachStep; eauto).
+    destruct (lock_exclusion prog s0 cfg H Hr i) as [_ Hex]. specialize (Hex Hi).
+    destruct Hs as [i' c todo cfg Hi' Hm Hg | i' c todo cfg Hi' Hm Hg | i' c todo cfg Hi' Hm
+                   | i' c f rest loc todo cfg Hi' | i' c loc todo cfg Hi']; cbn [ths]; intros j.
+    - exfalso. apply (proj2 (Hg i)). exact Hi.
+    - apply no_writer_after_set; [cbn; congruence|auto].
+    - pose proof (inv_reachable prog s0 cfg H Hr) as [Hl _ _ _ _].
+      exfalso. apply (Hl i' c); [rewrite Hi'; now left|exact Hm].
+    - apply no_writer_after_set; [|auto]. cbn [holds]. intros Hm.
+      apply (Hex i'). rewrite Hi'. exact Hm.
+    - apply no_writer_after_set; [cbn; auto|auto].
+  Qed.
 End Sched.
 
 Arguments WCall {S L R}.
